@@ -151,7 +151,7 @@ fn mutate(rng: &mut Rng, base: &[u8]) -> Vec<u8> {
     out
 }
 
-const EXOTIC: &[&str] = &["é", "日本", " ", "a b", "x:y", "v;1,2", "%41", "~", "!", "1.0.0+1=2", "\u{1F600}"];
+const EXOTIC: &[&str] = &["é", "日本", " ", "a b", "x:y", "v;1,2", "%41", "~", "!", "1.0.0+1=2", "\u{1F600}", "ABC", "É", "-RC1"];
 
 pub fn make_ctx(rng: &mut Rng, prof: &Profile, pk8: &[u8], pub_b64: &str, pub2_b64: &str, pk8_other: &[u8]) -> Ctx {
     let base_len = 1 + rng.below(64);
@@ -209,7 +209,8 @@ pub fn make_ctx(rng: &mut Rng, prof: &Profile, pk8: &[u8], pub_b64: &str, pub2_b
     let ex = |rng: &mut Rng, plain: &str| -> String {
         if exotic && rng.chance(60) { format!("{}{}", plain, rng.pick(EXOTIC)) } else { plain.to_string() }
     };
-    let app_id = ex(rng, "app-1");
+    // app ids are UUIDs in practice: upper-case ones must reach the server exactly as written
+    let app_id = if rng.chance(25) { ex(rng, "8C846E87-1461-4B09-8708-170D78331AA7") } else { ex(rng, "app-1") };
     let yaml_channel = if rng.chance(40) { Some(ex(rng, "beta")) } else { None };
     // incl. pairs in which one version string is a strict prefix of the other (a comparison by prefix would call them equal)
     let versions = vec![ex(rng, "1.0.0+1"), ex(rng, "1.0.1+2"), ex(rng, "0.9.0+7"), ex(rng, "1.0.0+10"), ex(rng, "1.0.0")];
